@@ -345,10 +345,14 @@ class SearchCommand(CommandSelect):
             if atom.value.upper() == b'CHARSET':
                 _, after = Space.parse(after, params)
                 string, after = AString.parse(after, params)
-                charset = str(string.value, 'ascii')
                 try:
-                    b' '.decode(charset)
-                except LookupError as exc:
+                    charset = str(string.value, 'ascii')
+                    # Unknown names and bytes-to-bytes codecs raise
+                    # LookupError, the "undefined" codec UnicodeError, a
+                    # name with NUL ValueError. Encoding is tried because
+                    # a single octet does not decode as e.g. UTF-16.
+                    ' '.encode(charset)
+                except (LookupError, ValueError) as exc:
                     raise NotParseable(buf, b'BADCHARSET') from exc
                 return charset, after
         return None, buf
